@@ -252,6 +252,7 @@ func c03(env *core.Env, kind string) {
 		MaxBlob:    300,
 		Weights:    reg.DefaultWeights(),
 		BadPush:    false,
+		Motifs:     true,
 		AltAlgo:    true,
 		Uploads:    true,
 		SmallReads: true,
